@@ -5,9 +5,23 @@ KEYS = [
     'parso.python.tree._LeafWithoutNewlines.end_pos',
     'parso.python.prefix.PrefixPart.end_pos', 'parso.python.prefix.PrefixPart.__init__',
     'parso.python.prefix.PrefixPart.create_spacing_part',
+    'parso.tree.BaseNode.start_pos', 'parso.tree.BaseNode.end_pos', 'parso.tree.Leaf.start_pos#ghost',
+    'parso.tree.Leaf.end_pos#ghost', 'parso.python.tree._LeafWithoutNewlines.end_pos#ghost',
+    'parso.tree.Leaf.get_start_pos_of_prefix', 'parso.tree.BaseNode.get_start_pos_of_prefix',
 ]
 
 
 def run(report):
     verify_keys(report, KEYS)
+    from props.common import add_obs
+    from pv import obs_regex as R
+    from pv import obs_tables as T
+
+    def class_inv():
+        obs = []
+        for v, _ in T.grammar_files():
+            obs += [o for o in R.tokenizer_obligations(v) if 'no-break' in o.name or ':shape' in o.name]
+        obs += [o for o in R.prefix_obligations('3.10') if 'part-' in o.name or 'spacing-no-break' in o.name]
+        return obs
+    add_obs(report, class_inv)
     run_bounded(report, 'pos')
